@@ -17,8 +17,16 @@ C17_PATH_LOADER_SHAPE  what `path_loader` captures as its base (`let dir = …;`
 C17_LOADER_ENTRY_SITES the functions of the engine that ask the template store / loader for a
                        template by name (`get_template(`, `join_template_path(`, `templates.get(`,
                        `templates.iter(`); each must be driven by a form of the harness.
+C17_NAME_FLOW          every call by which a template NAME travels towards the loader (`get_template`,
+                       `join_template_path`, `templates.get`, the loader closure, the path-join
+                       callback) with the function it sits in, its receiver and its ARGUMENT TEXT
+                       (+ where a plain variable argument was bound): the Lean `Engine` model's
+                       routes (`MJ/Model/PathRoutes.lean`) are compared with it row by row.
+C17_STMT_ROUTES        statement -> instruction (codegen) -> fetching function (VM dispatch) for
+                       include / import / from-import / extends, and the number of calls of the
+                       two fetching functions.
 """
-import re
+import re, os, glob
 from extract_tables import item, read, fn_body, lean_str, lean_char
 
 LOADER = "minijinja/src/loader.rs"
@@ -227,3 +235,118 @@ def _path_producers(repo):
     lean = ("def c17PathProducers : List (String × String) := ["
             + ", ".join(f"({lean_str(a)}, {lean_str(b)})" for a, b in out) + "]")
     return [list(s) for s in out], lean
+
+
+def _call_args(text, k):
+    """text[k] is the `(` of a call: the argument text up to the matching `)`"""
+    depth, i = 0, k
+    while i < len(text):
+        c = text[i]
+        if c in "([{":
+            depth += 1
+        elif c in ")]}":
+            depth -= 1
+            if depth == 0:
+                return text[k + 1:i]
+        i += 1
+    raise KeyError("unbalanced call")
+
+@item("C17_NAME_FLOW")
+def _name_flow(repo):
+    """every place of the engine (tests and verification hooks aside) where a template NAME travels
+    towards the loader: calls of `get_template`, `join_template_path`, `templates.get`, of the loader
+    closure (`loader(..)`, the `LoadFunc` held by the store) and of the path-join callback (`cb(..)`),
+    each with the function it sits in and its ARGUMENT TEXT (white space removed)."""
+    rows = []
+    files = sorted(glob.glob(os.path.join(repo, "minijinja/src/**/*.rs"), recursive=True))
+    for path in files:
+        rel = os.path.relpath(path, os.path.join(repo, "minijinja/src"))
+        if rel.startswith("verif_hooks"):
+            continue
+        text = open(path, encoding="utf-8").read()
+        text = re.sub(r"//[^\n]*", lambda mm: " " * len(mm.group(0)), text)
+        cut = text.find("#[cfg(test)]\nmod tests")
+        if cut >= 0:
+            text = text[:cut]
+        fns = list(re.finditer(r"\bfn\s+(\w+)", text))
+        pat = r"(?<!fn )\b(get_template|join_template_path)\s*\(|\b(templates\s*\.\s*get)\s*\(|(?<![\w.])(loader|cb)\s*\("
+        for mm in re.finditer(pat, text):
+            before = [f for f in fns if f.start() < mm.start()]
+            if not before:
+                continue
+            callee = re.sub(r"\s+", "", mm.group(1) or mm.group(2) or mm.group(3))
+            args = re.sub(r"\s+", "", _call_args(text, mm.end() - 1))
+            # the receiver of a method call (`state.`, `self.env().`, `state.env().`)
+            recv = re.search(r"((?:\b\w+(?:\(\))?\s*\.\s*)+)$", text[max(0, mm.start() - 80):mm.start()])
+            recv = re.sub(r"\s+", "", recv.group(1)) if recv and callee not in ("loader", "cb") else ""
+            # a plain variable as argument: where it was bound in this function (first 64 characters)
+            av = re.fullmatch(r"&?(\w+)", args)
+            if av:
+                scope = text[before[-1].start():mm.start()]
+                b = re.findall(r"\blet\s+(?:mut\s+)?%s\s*(?::[^=;]+)?=\s*(.*?);" % re.escape(av.group(1)), scope, re.S)
+                if b:
+                    args += " where " + av.group(1) + "=" + re.sub(r"\s+", "", b[-1]).split(".ok_or_else(")[0][:64]
+            rows.append((rel, before[-1].group(1), recv + callee, args))
+    if not rows:
+        raise KeyError("no name-flow call sites found")
+    lean = ("def c17NameFlow : List (String × String × String × String) := [\n  "
+            + ",\n  ".join(f"({lean_str(a)}, {lean_str(b)}, {lean_str(c)}, {lean_str(d)})" for a, b, c, d in rows) + "]")
+    return [list(r) for r in rows], lean
+
+@item("C17_STMT_ROUTES")
+def _stmt_routes(repo):
+    """how a statement that names a template becomes a call of one of the two fetching functions:
+    the instruction `compiler/codegen.rs` emits for `ast::Stmt::{Include, Import, FromImport,
+    Extends}` and the function the VM's dispatch calls for that instruction."""
+    cg = re.sub(r"//[^\n]*", "", read(repo, "minijinja/src/compiler/codegen.rs"))
+    vm = re.sub(r"//[^\n]*", "", read(repo, "minijinja/src/vm/mod.rs"))
+    cut = vm.find("#[cfg(test)]\nmod tests")
+    vm = vm[:cut] if cut >= 0 else vm
+    rows = []
+    arms = list(re.finditer(r"\bast::Stmt::(\w+)\s*\(", cg))
+    for i, a in enumerate(arms):
+        seg = cg[a.end():arms[i + 1].start() if i + 1 < len(arms) else len(cg)]
+        for ins in re.findall(r"\bInstruction::(Include|LoadBlocks)\b", seg):
+            r = ("codegen", "Stmt::" + a.group(1), ins)
+            if r not in rows:
+                rows.append(r)
+    arms = list(re.finditer(r"\bInstruction::(\w+)\b[^=\n]*=>", vm))
+    for i, a in enumerate(arms):
+        seg = vm[a.end():arms[i + 1].start() if i + 1 < len(arms) else len(vm)]
+        for fn in re.findall(r"\bSelf::(perform_include|load_blocks)\s*\(", seg):
+            r = ("vm", "Instruction::" + a.group(1), fn)
+            if r not in rows:
+                rows.append(r)
+    # every call of the two functions, wherever it sits
+    calls = sorted(set(re.findall(r"(?<!fn )\b(perform_include|load_blocks)\s*\(", vm)))
+    n_calls = len(re.findall(r"(?<!fn )\b(?:perform_include|load_blocks)\s*\(", vm))
+    if not rows:
+        raise KeyError("no statement routes found")
+    lean = ("def c17StmtRoutes : List (String × String × String) := ["
+            + ", ".join(f"({lean_str(a)}, {lean_str(b)}, {lean_str(c)})" for a, b, c in rows) + "]\n"
+            f"def c17FetchFnCalls : Nat := {n_calls}")
+    return {"routes": [list(r) for r in rows], "calls": calls, "n_calls": n_calls}, lean
+
+@item("C17_WATCH_ARGS")
+def _watch_args(repo):
+    """minijinja-autoreload's `watch_path` / `unwatch_path` (the only functions outside loader.rs
+    that take a path): what becomes of the `path` parameter — how it is rebound, which calls it is
+    an argument of, and how often it is mentioned at all."""
+    src = re.sub(r"//[^\n]*", "", read(repo, "minijinja-autoreload/src/lib.rs"))
+    rows = []
+    for fn in ("watch_path", "unwatch_path"):
+        m = re.search(r"pub fn %s<P: AsRef<Path>>\(&self, path: P[^)]*\)\s*\{" % fn, src)
+        if not m:
+            raise KeyError(f"autoreload: pub fn {fn}<P: AsRef<Path>>(&self, path: P, ..)")
+        body = fn_body(src[m.start():], r"pub fn %s<P: AsRef<Path>>\(&self, path: P[^)]*\)\s*\{" % fn)
+        binds = [re.sub(r"\s+", "", x) for x in re.findall(r"let\s+path\s*=\s*(.*?);", body, re.S)]
+        calls = []
+        for c in re.finditer(r"([\w.:]+)\s*\(", body):
+            args = re.sub(r"\s+", "", _call_args(body, c.end() - 1))
+            if re.search(r"(?<![\w.])path\b", args) and "|" not in args:
+                calls.append(c.group(1) + "(" + args + ")")
+        uses = len(re.findall(r"(?<![\w.])path\b", body))
+        rows.append((fn, ";".join(binds), ";".join(calls), uses))
+    lean = ("def c17WatchArgs : List (String × String × String × Nat) := ["
+            + ", ".join(f"({lean_str(a)}, {lean_str(b)}, {lean_str(c)}, {d})" for a, b, c, d in rows) + "]")
+    return [list(r) for r in rows], lean
